@@ -360,7 +360,7 @@ def _(u):
         got = u.run(OPS, "get_num_starts", td, name, record=False)
         u.prove(f"num_starts.{name}", zint(got) == zint(want))
     got = u.run(OPS, "get_num_starts", td, "pdp", record=False)
-    u.prove("num_starts.pdp", zint(got) == N / 2)
+    u.prove("num_starts.pdp", zint(got) == (N // 2 if isinstance(N, int) else N / 2))   # integer division (z3 `/` on Ints; `//` on the concrete pass)
 
 
 AMD = "rl4co/models/zoo/am/decoder.py"
